@@ -247,12 +247,18 @@ type countingLimiter struct{ l ratelimit.Limiter }
 
 func (c countingLimiter) Take() time.Time {
 	t := c.l.Take()
+	if W == nil {
+		NewWorld()
+	}
 	W.Takes = append(W.Takes, Take{T: vs.VNow(), Thread: vs.CurThread()})
 	return t
 }
 
 // NewRateLimit is what ratelimit.New is rewritten to: the real uber limiter on the virtual clock.
 func NewRateLimit(rate int, opts ...ratelimit.Option) ratelimit.Limiter {
+	if W == nil {
+		NewWorld()
+	}
 	W.Limiters++
 	return countingLimiter{ratelimit.New(rate, append(opts, ratelimit.WithClock(vclock{}))...)}
 }
